@@ -8,6 +8,23 @@ COMMON_ASSUME = [
 ]
 
 PROPS = {
+    "C08": {
+        "claimed": True,
+        "title": "Unlinkability: the mint never receives a blinding factor",
+        "lean": ["Gonuts.Props.C08", "Gonuts.Tie.WalletWire"],
+        "streams": ["wallet-wire"],
+        "thorough_shards": {"wallet-wire": 4},
+        "level": "proof",
+        "technique": "Lean 4 theorems over a tagged-tree model of every request body a wallet builds (Model.WalletWire: leaves tagged public / number / point / DLEQ transcript / secret in clear / blinding factor; request builders mirroring the composite literals of wallet.go and restore.go and the JSON tags of cashu.go; every operation path with selection, split, token, mint answers and errors as universally quantified oracles); tied to /repo statically (Tie.WalletWire: JSON tags incl. omitempty and pointer types, the rendered field expressions of every request literal, call skeletons of every path, by rfl) and dynamically (stream wallet-wire: real wallets and real mints over an in-process transport; a model-free byte-level monitor searches every request for every blinding factor / DLEQ transcript / output secret the harness learned independently (storage proxy, own NUT-13 derivation from the mnemonic, values returned to the caller) in every encoding, and the shape of every request body is compared with the model's tagged tree through the Lean driver)",
+        "design_ref": "DESIGN.md §4.5, §5 C08, §6 F5",
+        "text": "PROVED (Gonuts/Props/C08.lean) on a tagged-tree model of every request body: for EVERY wallet state (stored and pending proofs with and without DLEQ, with and without r; unbounded lists), every operation path of the quantifier (RequestMint, MintTokens, Send with exact selection and through swapToSend, SendToPubkey / HTLCLockedProofs, Receive kept / swapped to the trusted mint / P2PK with and without SIG_ALL, ReceiveHTLC, Melt with NUT-08 blank outputs and a preceding state check, MintSwap, ReclaimUnspentProofs, RemoveSpentProofs, Restore, quote requests), every selection, split, token, every answer of the mint (signatures with and without DLEQ, wrong lengths, invalid signatures, states, errors) and every history of such operations: no request contains a leaf tagged blindingFactor, and a secret in clear occurs only at inputs[].secret and only as the secret of a proof that is an input of that very request (C08_no_secret_leaf, C08_no_secret_leaf_hist, C08_no_secret_leaf_unfolded); the mint's own DLEQ transcript (e, s), which identifies the blind signature just as well, never travels either (C08_no_dleq_transcript); the copies sent differ from the wallet's proofs in the DLEQ only (C08_only_dleq_removed). EXACT conditions show the fix is necessary at each site: a swap / melt request is secure iff none of the proofs passed as Inputs carries r, and transcript-free iff none has a DLEQ (C08_swap_exact, C08_melt_exact, C08_swap_transcript_exact). Blinding factors do leave the wallet in values for its CALLER: Send returns the stored proofs untouched (C08_send_returns_stored), a token built with includeDLEQ=true shows r of every proof that has one (C08_token_includes_r), with includeDLEQ=false none (C08_token_strips_r); NewTokenV4 likewise (examples). FOUND AND FIXED (F5, /repo e3b61b4): constructProofs stores DLEQ{E,S,R} on every proof, bbolt round-trips it, tokens deliver dleq{e,s,r}, and swap(), swapToSend, Melt and swapProofs put those proofs as they were into PostSwapRequest.Inputs / PostMeltBolt11Request.Inputs, whose JSON encoding emits `dleq` whenever the pointer is set: the mint received r (and its own e, s) of every proof spent. Reproduced first by the byte-level monitor at all four sites (findings/F5-*.json; also from wallets WITHOUT any stored DLEQ: Melt / MintSwap through swapToSend and the SIG_ALL swap-to-trusted spend proofs fresh from constructProofs), with the model stating the full property as a refuted def plus a partial theorem; after the fix the model follows the fixed code, the full statement is the theorem and the former witnesses are regression examples (Lean) and scripted regression histories (stream) that must still reach each site with DLEQ-carrying inputs. ReclaimUnspentProofs, MintTokens, RemoveSpentProofs and Restore were safe before the fix (inputs rebuilt without DLEQ / blinded messages / Ys / B_ only).",
+        "note": "Unlinkability in the cryptographic sense (that B_ and C reveal nothing about each other) is C10's algebra plus the blinding assumption; C08 is the information-flow part: which values travel. Timing / network-level correlation (same connection, request order, amounts) is out of scope. MultiMintPayment (NUT-15) is not in the property's quantifier; it reuses Melt. The HTLC preimage and P2PK signatures travel inside `witness` by design (public to the mint once spent).",
+        "assumptions": COMMON_ASSUME + [
+            "a blinded message B_ = hash_to_curve(secret) + r*G is modelled as an opaque point leaf: that it hides secret and r is the blinding assumption of BDHKE (C10), not proved here",
+            "public text (quote ids, keyset ids, invoices, NUT-20 public keys and signatures, P2PK/HTLC witnesses) is modelled as an opaque public leaf; the byte-level monitor searches it like everything else",
+            "GET requests carry no body; their URLs (mint URL, quote id, keyset id) are searched by the monitor and are not part of the tree model",
+        ],
+    },
     "C18": {
         "claimed": True,
         "title": "Send hands over exactly the requested amount, fees included when asked",
